@@ -546,3 +546,55 @@ def rule_metadata_roundtrip(ctx, R):
             else:
                 ctx.ob(R, init.qname, f"{label}: every metadata entry passed to the constructor comes back from metadata()", True, "", init.node)
     ctx.floor(R, 6)
+
+
+# ---- scale-dependent shortcuts: tests with numpy's default absolute tolerance on data magnitudes ------------------------------------------
+
+_META_WORDS = ("shape", "size", "ndim", "voxel_size", "dimensions", "num_voxels", "origin", "dtype", "time", "date", "indexing", "counts", "labels")
+
+
+def rule_abs_tolerance(ctx, R, funcs, what):
+    """In `funcs` (the computation behind a property that is invariant under rescaling of its data), no branch may be decided by
+    np.allclose / np.isclose / math.isclose with the default absolute tolerance applied to data compared with zero or with other data:
+    atol = 1e-8 makes every quantity below 1e-8 'equal to zero', so the branch taken -- and with it the result -- depends on the units."""
+    ctx.rule(R, "no scale-dependent shortcut: outside assert statements, no np.allclose / np.isclose / math.isclose with the default absolute "
+             "tolerance (1e-8) compares data with zero or data with data -- results must not change when the data are rescaled (small masses, "
+             "SI units with millimetre voxels, tiny residuals)")
+    n = 0
+    for f in funcs:
+        n += 1
+        for c in ast.walk(f.node):
+            if not (isinstance(c, ast.Call) and norm(c.func) in ("np.allclose", "np.isclose", "math.isclose") and len(c.args) >= 2):
+                continue
+            cur, in_assert = c, False
+            while cur is not None and cur is not f.node:
+                if isinstance(cur, ast.Assert):
+                    in_assert = True
+                cur = getattr(cur, "_parent", None)
+            if in_assert:
+                continue
+            kws = {k.arg: k.value for k in c.keywords}
+            tol = kws.get("atol", kws.get("abs_tol"))
+            if norm(c.func) == "math.isclose" and tol is None:
+                continue  # math.isclose has no absolute tolerance by default
+            if tol is not None and not (isinstance(tol, ast.Constant) and tol.value not in (0, 0.0)) and not isinstance(tol, ast.Constant):
+                continue  # a tolerance computed by the caller: not the fixed default
+            if isinstance(tol, ast.Constant) and tol.value in (0, 0.0):
+                continue
+            a, b = c.args[0], c.args[1]
+
+            def is_zero(e):
+                return (isinstance(e, ast.Constant) and e.value in (0, 0.0)) or (isinstance(e, ast.Call) and norm(e.func) in ("np.zeros", "np.zeros_like"))
+
+            def is_data(e):
+                if isinstance(e, ast.Constant) or isinstance(e, (ast.List, ast.Tuple)) and all(isinstance(x, ast.Constant) for x in e.elts):
+                    return False
+                t = norm(e)
+                return not any(w in t for w in _META_WORDS)
+            if (is_zero(b) and is_data(a)) or (is_zero(a) and is_data(b)) or (is_data(a) and is_data(b) and not is_zero(a) and not is_zero(b)):
+                ctx.instance(R)
+                ctx.ob(R, f.qname, "no branch is decided by a default-tolerance comparison of data", False,
+                       f"`{norm(c)[:90]}` uses the default absolute tolerance 1e-8: for data of magnitude below 1e-8 it holds whatever the values are, so the "
+                       f"shortcut it guards changes the result when the inputs are rescaled; {what}", c, evidence=True)
+    ctx.instance(R, 0)
+    ctx.ob(R, "darsia", f"{n} function(s) scanned for default-tolerance comparisons of data", True, "", None)
